@@ -236,6 +236,23 @@ JOINED_TARGETS = {"http://a.com/r?url=%2Fx": "http://a.com/x", "http://a.com?u=%
                   "a.com/r?url=%2Fx": "a.com/x", "//a.com/r?url=/x": "//a.com/x", "a.com?url=/": "a.com/"}
 
 
+def redirect_grammar():
+    """the redirect grammar of the property's quantifier (thorough tier): bases x key positions x keys and look-alikes x target kinds x encodings"""
+    from urllib.parse import quote as _q
+    out = []
+    bases = ["http://a.com", "http://a.com/r", "a.com/r", "//a.com/r", "https://www.youtube.com/redirect", "https://www.google.com/url", "http://A.com:8080/r"]
+    keys = ["url", "u", "q", "next", "redirect_to", "l", "target", "goto", "xurl", "URL", "redirect%5Fto"]
+    for b in bases:
+        targets = ["http://b.org/x", "HTTPS://b.org/x?k=v", "b.org/x", "/x", "/x?u=/y", "//b.org/x", b + "?z=1", "http://b.org/?url=http%3A%2F%2Fc.net%2Fy", "https://", "", "/"]
+        for k in keys:
+            for t in targets:
+                for enc in (t, _q(t, safe="")):
+                    out.append("%s?%s=%s" % (b, k, enc))
+                    out.append("%s?a=1&%s=%s&z=2" % (b, k, enc))
+                out.append("%s#%s=%s" % (b, k, t))
+    return out
+
+
 def fixed_point_table(ctx, rule):
     ctx.rule(rule, "model table (fixed point): infer_redirection, interpreted on one url per class {no key, absolute / nested / relative / protocol-relative / empty target, a key in host position, self-embedding, AMP / Marfeel cache with and without tail, youtube redirect, the 'q' key with and without its route, escaped or control-split key, double-escaped value, unparseable base (unbalanced bracket, bad port), degenerate strings}: the recursive result is the same when the call is made a second time (nothing is remembered between calls), is unchanged by a further application, is (for a relative target) the url itself or the target resolved against it as a reference, equals what repeated non-recursive application converges to within 8 steps, and is the url itself or shorter")
     from ..microeval import Raised
@@ -244,7 +261,10 @@ def fixed_point_table(ctx, rule):
     ref = mod.func("infer_redirection")
     site = mod.site(ref.node)
     n = 0
-    for u in FIXED_POINT_CELLS + [c for c in sorted(ABSOLUTE_TARGETS) + sorted(JOINED_TARGETS) if c not in FIXED_POINT_CELLS]:
+    cells = FIXED_POINT_CELLS + [c for c in sorted(ABSOLUTE_TARGETS) + sorted(JOINED_TARGETS) if c not in FIXED_POINT_CELLS]
+    if ctx.tier == "thorough":
+        cells = cells + [c for c in redirect_grammar() if c not in cells]
+    for u in cells:
         try:
             r = run_function(repo, ref, [u])
             again = run_function(repo, ref, [r]) if isinstance(r, str) else None
@@ -280,4 +300,4 @@ def fixed_point_table(ctx, rule):
         if u in JOINED_TARGETS and r not in (u, JOINED_TARGETS[u]):
             problems.append("the relative target joined to the url is %r" % JOINED_TARGETS[u])
         ctx.ob(rule, "fixed-point/%r" % u, not problems, "infer_redirection(%r) gives %r: %s" % (u, r, "; ".join(problems)), site, witness=u, sample="%r -> %r" % (u, r) if "ampproject" in u or "a&url" in u else None)
-    ctx.require_instances(rule, n, len(FIXED_POINT_CELLS) - 3, "fixed-point cells")
+    ctx.require_instances(rule, n, len(cells) - 3 - len(cells) // 50, "fixed-point cells")
